@@ -229,11 +229,18 @@ impl<'a> Ref<'a> {
     // ------------------------------------------------------------ encode
 
     pub fn encode(&self, ty: &str, val: &Value) -> Result<Encoded, EncErr> {
+        self.encode_events(ty, val).0
+    }
+
+    /// like `encode`, but the events are also returned when encoding fails
+    pub fn encode_events(&self, ty: &str, val: &Value) -> (Result<Encoded, EncErr>, Events) {
         let fl = self.flat(ty);
         let mut ev = Events::new();
-        let Some(obj) = val.as_object() else { return bad("value is not an object") };
-        let (bytes, layout) = self.enc_level(&fl, 0, obj, &mut ev)?;
-        Ok(Encoded { bytes, layout, events: ev })
+        let Some(obj) = val.as_object() else { return (bad("value is not an object"), ev) };
+        match self.enc_level(&fl, 0, obj, &mut ev) {
+            Ok((bytes, layout)) => (Ok(Encoded { bytes, layout, events: ev.clone() }), ev),
+            Err(e) => (Err(e), ev),
+        }
     }
 
     fn get_u64(&self, obj: &Map<String, Value>, id: &str) -> Result<u64, EncErr> {
@@ -397,7 +404,7 @@ impl<'a> Ref<'a> {
                         } else {
                             let Some(af) = by_id(target) else { return bad("size target") };
                             let FK::Array { modifier, .. } = &af.k else { return bad("size target kind") };
-                            let (b, _, _) = self.enc_array(af, obj, 0, &mut Events::new())?;
+                            let (b, _, _) = self.enc_array(af, obj, 0, ev)?;
                             b.len() as u64 + modifier
                         };
                         if v > mask(w) {
@@ -417,7 +424,7 @@ impl<'a> Ref<'a> {
                     }
                     FK::ElemSize { target, .. } => {
                         let Some(af) = by_id(target) else { return bad("elementsize target") };
-                        let (_, _, sizes) = self.enc_array(af, obj, 0, &mut Events::new())?;
+                        let (_, _, sizes) = self.enc_array(af, obj, 0, ev)?;
                         let v = sizes.first().copied().unwrap_or(0) as u64;
                         if sizes.iter().any(|s| *s as u64 != v) {
                             ev.insert("elemsize-mismatch".into());
